@@ -31,40 +31,40 @@ Section Tie.
     Some (gen_a_trajpoly7_gen O x0 x1 x2 x3 x4 x5 x6 x7 ts p0 p1 v0 v1 a0 a1 j0 j1) = t8 (trajpoly7_gen O ts p0 p1 v0 v1 a0 a1 j0 j1).
   Proof. intros. reflexivity. Qed.
 
-  (* derivative coefficient builders: result = (unchanged ctx coefficients, cells written) *)
+  (* derivative coefficient builders: result = the cells written (the context is passed as pointer to const: inputs only) *)
   Theorem tie_a_trajpoly3_c1 : forall c0 c1 c2 c3,
     Some (gen_a_trajpoly3_c1 O c0 c1 c2 c3) =
-    match c1_of O [c0; c1; c2; c3] with [a; b; c] => Some (c0, c1, c2, c3, a, b, c) | _ => None end.
+    match c1_of O [c0; c1; c2; c3] with [a; b; c] => Some (a, b, c) | _ => None end.
   Proof. intros. reflexivity. Qed.
 
   Theorem tie_a_trajpoly3_c2 : forall c0 c1 c2 c3,
     Some (gen_a_trajpoly3_c2 O c0 c1 c2 c3) =
-    match c2_of O [c0; c1; c2; c3] with [a; b] => Some (c0, c1, c2, c3, a, b) | _ => None end.
+    match c2_of O [c0; c1; c2; c3] with [a; b] => Some (a, b) | _ => None end.
   Proof. intros. reflexivity. Qed.
 
   Theorem tie_a_trajpoly5_c1 : forall c0 c1 c2 c3 c4 c5,
     Some (gen_a_trajpoly5_c1 O c0 c1 c2 c3 c4 c5) =
-    match c1_of O [c0; c1; c2; c3; c4; c5] with [a; b; c; d; e] => Some (c0, c1, c2, c3, c4, c5, a, b, c, d, e) | _ => None end.
+    match c1_of O [c0; c1; c2; c3; c4; c5] with [a; b; c; d; e] => Some (a, b, c, d, e) | _ => None end.
   Proof. intros. reflexivity. Qed.
 
   Theorem tie_a_trajpoly5_c2 : forall c0 c1 c2 c3 c4 c5,
     Some (gen_a_trajpoly5_c2 O c0 c1 c2 c3 c4 c5) =
-    match c2_of O [c0; c1; c2; c3; c4; c5] with [a; b; c; d] => Some (c0, c1, c2, c3, c4, c5, a, b, c, d) | _ => None end.
+    match c2_of O [c0; c1; c2; c3; c4; c5] with [a; b; c; d] => Some (a, b, c, d) | _ => None end.
   Proof. intros. reflexivity. Qed.
 
   Theorem tie_a_trajpoly7_c1 : forall c0 c1 c2 c3 c4 c5 c6 c7,
     Some (gen_a_trajpoly7_c1 O c0 c1 c2 c3 c4 c5 c6 c7) =
-    match c1_of O [c0; c1; c2; c3; c4; c5; c6; c7] with [a; b; c; d; e; f; g] => Some (c0, c1, c2, c3, c4, c5, c6, c7, a, b, c, d, e, f, g) | _ => None end.
+    match c1_of O [c0; c1; c2; c3; c4; c5; c6; c7] with [a; b; c; d; e; f; g] => Some (a, b, c, d, e, f, g) | _ => None end.
   Proof. intros. reflexivity. Qed.
 
   Theorem tie_a_trajpoly7_c2 : forall c0 c1 c2 c3 c4 c5 c6 c7,
     Some (gen_a_trajpoly7_c2 O c0 c1 c2 c3 c4 c5 c6 c7) =
-    match c2_of O [c0; c1; c2; c3; c4; c5; c6; c7] with [a; b; c; d; e; f] => Some (c0, c1, c2, c3, c4, c5, c6, c7, a, b, c, d, e, f) | _ => None end.
+    match c2_of O [c0; c1; c2; c3; c4; c5; c6; c7] with [a; b; c; d; e; f] => Some (a, b, c, d, e, f) | _ => None end.
   Proof. intros. reflexivity. Qed.
 
   Theorem tie_a_trajpoly7_c3 : forall c0 c1 c2 c3 c4 c5 c6 c7,
     Some (gen_a_trajpoly7_c3 O c0 c1 c2 c3 c4 c5 c6 c7) =
-    match c3_of O [c0; c1; c2; c3; c4; c5; c6; c7] with [a; b; c; d; e] => Some (c0, c1, c2, c3, c4, c5, c6, c7, a, b, c, d, e) | _ => None end.
+    match c3_of O [c0; c1; c2; c3; c4; c5; c6; c7] with [a; b; c; d; e] => Some (a, b, c, d, e) | _ => None end.
   Proof. intros. reflexivity. Qed.
 
 End Tie.
